@@ -21,7 +21,8 @@ METHOD_PROP = {
     "compress_strict": "C07", "expand_strict": "C07", "format_curie": "C07",
 }
 OP_PROP = {"discover": None, "new": "C04", "mkrec": "C04", "add": "C05", "chain": "C09", "sub": "C09", "remap_curie": "C11",
-           "remap_uri": "C12", "rewire": "C12", "load": "C13", "upgrade": "C13", "probe": None}
+           "remap_uri": "C12", "rewire": "C12", "load": "C13", "upgrade": "C13", "probe": None,
+           "write": "C14", "read": "C14"}
 
 
 def clause_tags(clause):
@@ -566,6 +567,75 @@ def replay_file(pid, tid, l, clause, ops, seed, opts):
     with open(path, "w") as f:
         json.dump(body, f, indent=1, ensure_ascii=False)
     return path
+
+
+TWIN = {"Size": '"twin"', "MaxSteps": 6, "MaxConvs": 4, "MaxFiles": 2, "MaxAdds": 0}
+
+
+def system_part(pid, tier, seed):
+    """C14 (and the frame of C10) along HISTORIES: spec/System.tla -- the converter world with the files it writes and reads.
+    TLC checks P_C14_sys / P_Snapshot / P_C10_sys on bounded instances; their behaviours and simulated ones are executed on
+    the implementation (real files) and every event is validated by spec/Trace.tla (write / read events)."""
+    sz = SIZES[tier]
+    quick = tier == "quick"
+    rng = random.Random(seed * 7919 + 1400 + int(pid[1:]))
+    models, hists, cex_ops = [], [], []
+    insts = [("quick", {}, True), ("quick", TWIN, True)]
+    if not quick:
+        insts += [("thorough", {}, False), ("quick", {"MaxSteps": 4, "MaxConvs": 2}, False)]
+    for mtier, extra, dump in insts:
+        res = world.model_check("System", mtier, [], extra, sz["mc_timeout"], want_dump=dump)
+        models.append({"model": "System", "instance": mtier, "invariants": world.MODELS["System"]["always"] + world.MODELS["System"]["properties"],
+                       "constants": {**world.MODELS["System"]["constants"][mtier], **extra}, **res["stats"], "wall_s": round(res["wall"], 1),
+                       "violated": res["violated"]})
+        hists += res["histories"]
+        if res["violated"]:
+            if not res["cex"]:
+                raise MachineryError(f"TLC reports {res['violated']} violated on System but no counterexample could be parsed")
+            cex_ops.append((res["violated"], world.conc_hist(res["cex"], world.CONCRETE["ascii"])))
+    reads = [h for h in hists if any(op["k"] == "read" for op in h[0])]
+    oplists = [ops for _, ops in cex_ops]
+    n_cex = len(oplists)
+    oplists += oplists_from_hists(pid, reads, CMAPS[tier], rng, 260 if quick else 1500)
+    n_hist = len(oplists) - n_cex
+    sim_h, sim_stats = world.simulate(48 if quick else 400, 10, seed + 14, timeout=sz["mc_timeout"], max_convs=8, system=True)
+    for k, (h, _l, _s) in enumerate(sim_h):
+        oplists.append(world.conc_hist(h, world.CONCRETE[CMAPS[tier][k % len(CMAPS[tier])]]))
+    opts = {"probe_cap": 8, "full_n": 0, "probe_inputs": True, "methods": LIGHT}
+    batch = world.execute(oplists, seed, opts, {pid})
+    fails, st = tlc.validate_traces(batch, timeout=sz["tr_timeout"])
+    mine, other = {}, {}
+    for tid, l, clause in fails:
+        if pid in clause_tags(clause):
+            mine.setdefault((tid, l), []).append(clause)
+        else:
+            other["/".join(clause)] = other.get("/".join(clause), 0) + 1
+    for k, (inv, ops) in enumerate(cex_ops):
+        if not any(t == k + 1 for (t, _l) in mine):
+            raise MachineryError(f"TLC counterexample to {inv} on System does not reproduce on the implementation: "
+                                 f"the specification misrepresents the code (ops: {json.dumps(ops)[:400]})")
+    lines, violations, known = [], 0, []
+    for (tid, l), clauses in sorted(mine.items()):
+        ops = oplists[tid - 1]
+        path = replay_file(pid, tid, l, clauses[0], ops, (seed * 1000003 + (tid - 1)) & 0x7FFFFFFF, opts)
+        kf = findings.match(pid, {"ops": ops, "clauses": clauses})
+        if kf:
+            known.append(kf)
+            lines.append(f"KNOWN-FINDING: property={pid} {kf['what']}")
+        else:
+            violations += 1
+            if violations <= 10:
+                lines.append(f"VIOLATION property={pid} replay={path}   # clauses {sorted(set('/'.join(c) for c in clauses))} at event {l} (history with files)")
+    kinds = {}
+    for t in batch["traces"]:
+        for e in t["events"]:
+            key = e["op"]["k"] + ":" + e["out"][0]
+            kinds[key] = kinds.get(key, 0) + 1
+    cov = {"models": models, "behaviours_from_tlc": n_hist, "behaviours_from_simulation": len(sim_h), "simulation": sim_stats,
+           "spec_signature_coverage": STRATA.get(pid), "event_kinds": kinds, "trace_validation": st, "other_clauses_failed": other,
+           "traces": len(oplists), "sample": oplists[n_cex] if len(oplists) > n_cex else None,
+           "checker_cmd": "tlc spec/mc/MC_System.tla (P_C14_sys, P_Snapshot, P_C10_sys) ; TRACE_FILE=<batch> tlc spec/Trace.tla"}
+    return {"lines": lines, "violations": violations, "known": known, "coverage": cov}
 
 
 def check(pid, tier, seed):
